@@ -34,7 +34,7 @@ ASSUMPTIONS = [
     "a timer firing at the very instant a request head arrives may legitimately win (not judged)",
     "environment model bound to real sockets by ./check selftest",
 ]
-BOUNDS_DOC = {"quick": "M<=1, S<=2, R=0; T in {4}", "thorough": "M<=2, S<=3, trio R<=1; T in {0.5, 4}"}
+BOUNDS_DOC = {"quick": "M<=1, S<=2, R=0 plus trio M=0,S<=2,R<=2; T in {4}", "thorough": "M<=2, S<=3, trio R<=1; T in {0.5, 4}"}
 BUDGET = {"quick": 300, "thorough": 1800}
 
 OK200 = {"type": "http.response.start", "status": 200, "headers": [(b"content-length", b"2")]}
@@ -113,17 +113,23 @@ def scenarios(tier: str) -> List[Any]:
                 out.append(("idle", engine, name, t))
             for fault in FAULTS:
                 out.append(("dead", engine, name, fault))
+            if engine == "trio":
+                out.append(("idle", engine, name, 4.0, "rev"))
+                for fault in FAULTS:
+                    out.append(("dead", engine, name, fault, "rev"))
     return out
 
 
 def bounds(tier: str, params: Any) -> dict:
+    if len(params) > 4:  # trio's own scheduling freedom, environment events at quiescence only
+        return {"M": 0, "S": 2, "R": 2}
     if tier == "quick":
         return {"M": 1, "S": 2, "R": 0}
     return {"M": 2, "S": 3, "R": 1 if params[1] == "trio" else 0}
 
 
 def build(params: Any) -> tuple:
-    kind, engine, name, x = params
+    kind, engine, name, x = params[:4]
     conn, client, apps, cfg = HISTORIES[name]
     conn = dict(conn)
     if conn["carrier"] == "h1":
@@ -161,7 +167,7 @@ def _responses(w: Any) -> List[dict]:
 
 
 def oracle(w: Any, params: Any) -> List[dict]:
-    kind, engine, name, x = params
+    kind, engine, name, x = params[:4]
     out: List[dict] = []
     rec = w.conns[0]
     t_keep = w.scenario["config"]["keep_alive_timeout"]
